@@ -322,7 +322,18 @@ def k_field_value(d):
     class FakeForm(object):
         def name(self):
             return 'frm'
-    samples = {'none': [None], 'bool': [True, False], 'int': [0, 7, -3], 'float': [0.0, 1.005, 2.675, -1234.56789, 0.125], 'blank': ['', ' ', '\t \n'],
+    import enum as _enum
+
+    class _IntSub(_enum.IntEnum):
+        A = 3
+        B = 0
+
+    class _StrSub(str):
+        pass
+
+    class _FloatSub(float):
+        pass
+    samples = {'int_subclass': [_IntSub.A, _IntSub.B], 'str_subclass': [_StrSub('ab')], 'float_subclass': [_FloatSub(1.5), _FloatSub(0.0)], 'none': [None], 'bool': [True, False], 'int': [0, 7, -3], 'float': [0.0, 1.005, 2.675, -1234.56789, 0.125], 'blank': ['', ' ', '\t \n'],
                'text': ['a', ' b '], 'enum': list(en), 'other_enum': list(other)}[d['tag']]
     fname, places = d['field'], d['places']
     good = {'StringField': ('none', 'blank', 'text'), 'BooleanField': ('none', 'blank', 'bool'), 'IntegerField': ('none', 'blank', 'int'),
@@ -403,6 +414,10 @@ def run_cli_session(d):
                 log.append((name, 'ASKED-AGAIN'))
             if k is not None and state['n'] == k:
                 state['n'] += 1
+                if kind == 'invalid_then_interrupt':
+                    # an answer the input rejects; Ctrl-C follows at the "try again?" prompt (REASK above)
+                    log.append((name, 'INVALID'))
+                    return '@@'
                 raise {'KeyboardInterrupt': KeyboardInterrupt, 'EOFError': EOFError}[kind]()
             state['n'] += 1
             ans = answers.get(name, '')
@@ -448,7 +463,7 @@ def run_cli_session(d):
             if getv(name) != text.strip():
                 out['findings'].append('lost-or-changed-prior:%s' % name)
                 break
-        given = [(n, a) for n, a in log1 if a not in ('REASK', 'ASKED-AGAIN')]
+        given = [(n, a) for n, a in log1 if a not in ('REASK', 'ASKED-AGAIN', 'INVALID')]
         for name, a in given:
             if getv(name) != a.strip():
                 out['findings'].append('lost-answer:%s' % name)
